@@ -7,7 +7,7 @@
    sizes and all data-member registers are exactly as before (strong guarantee incl. "nothing leaked"). *)
 From Coq Require Import List Arith Lia Bool ZArith.
 From MomoCommon Require Import GenPrelude.
-From C04 Require Gen_OpenN1_exn Gen_Open2N2_exn OpenExn Gen_LimP4_exn LimP4Exn OpenRefine Gen_ArrReset_exn ArrResetExn Gen_C04Facts FactsTie Gen_XCheckH Gen_XCheckT XCheck.
+From C04 Require Gen_OpenN1_exn Gen_Open2N2_exn OpenExn Gen_LimP4_exn LimP4Exn OpenRefine Gen_ArrReset_exn ArrResetExn Gen_C04Facts FactsTie Gen_XCheckH Gen_XCheckT XCheck NonVacuity.
 From C04 Require Import Effects ObjMgr ArrayData Ctor KeyValue Tree Relocator Replace PlanWf MultiMap SetCount HashGrow Shifter.
 Import ListNotations.
 
@@ -514,25 +514,8 @@ Theorem relocate_items_swallow :
 Proof. exact relocate_items_spec. Qed.
 Print Assumptions relocate_items_swallow.
 
-(* BucketOpenN1 / BucketOpen8 / BucketOpen2N2 ::AddCrt: creator first, short hash + count byte afterwards (same shape as the
-   in-place LimP4 add); any all-or-nothing creator, every schedule: an exception leaves the bucket's metadata untouched *)
-Theorem open_bucket_add_guard :
-  forall creator fp P R s,
-    exec_spec (creator (regs (hp s) rItems, regs (hp s) rCount)) fp P R -> P (hp s) ->
-    wp (open_bucket_add creator) s
-       (fun _ s' => regs (hp s') rCount = S (regs (hp s) rCount) /\
-                    (forall r, r <> rCount -> regs (hp s') r = regs (hp s) r) /\
-                    agree (fun l => ~ fp l) (hp s) (hp s'))
-       (fun s' => heq (hp s) (hp s')).
-Proof. exact bucket_add_inplace_spec. Qed.
-Print Assumptions open_bucket_add_guard.
-
-(* the seeded ordering (short hash / state written before the creator) leaves a raw slot marked as occupied *)
-Theorem open_bucket_add_premature_refuted :
-  exists s', open_bucket_add_premature (creator_copy (0, 0)) (mkS bucket_demo_heap [true] []) = (Exn, s') /\
-             regs (hp s') rCount = 2 /\ mem (hp s') (1, 1) = Raw.
-Proof. exact bucket_add_inplace_premature_leaves_slot_marked. Qed.
-Print Assumptions open_bucket_add_premature_refuted.
+(* (review round: open_bucket_add_guard / open_bucket_add_premature_refuted removed -- `open_bucket_add` is an alias of `bucket_add_inplace`, the two
+   theorems were duplicates of bucket_add_inplace_guard / bucket_add_inplace_premature_refuted; the alias is used by gen_openn1_refines_open_bucket_add) *)
 
 (* ---- theorems about cxx2coq-GENERATED code (regenerated from /repo's headers on every run) ---------------------------------------
    BucketOpenN1<maxCount, reverse>::AddCrt (details/HashBucketOpenN1.h:122-135; BucketOpen8 is BucketOpenN1<7, true>): whenever the
@@ -724,36 +707,36 @@ Print Assumptions gen_array_pvreset_throwing.
    destructor runs after its catch block) and the catch block resets the object after destroying; the model flag is computed from the
    generated statement list, and the resource-machine constructor run on EVERY failure schedule of a 3-item source never double-destroys
    (Stuck), leaks nothing and leaves the source alone.  The same model with the pre-fix catch block is refuted. *)
-Theorem hashset_copy_ctors_at_current_headers :
+Theorem hashset_copy_ctors_at_current_headers_bounded :
   Gen_C04Facts.hashset_copy_delegates = true /\ Gen_C04Facts.hashset_ilist_delegates = true /\
   FactsTie.ctor_all_ok (FactsTie.catch_resets FactsTie.n_pvDestroy Gen_C04Facts.hashset_copy_catch) = true /\
   FactsTie.ctor_all_ok (FactsTie.catch_resets FactsTie.n_pvDestroy Gen_C04Facts.hashset_ilist_catch) = true.
 Proof. exact FactsTie.hashset_ctors_at_generated. Qed.
-Print Assumptions hashset_copy_ctors_at_current_headers.
+Print Assumptions hashset_copy_ctors_at_current_headers_bounded.
 
-Theorem treeset_copy_ctors_at_current_headers :
+Theorem treeset_copy_ctors_at_current_headers_bounded :
   Gen_C04Facts.treeset_copy_delegates = true /\ Gen_C04Facts.treeset_ilist_delegates = true /\
   FactsTie.ctor_all_ok (FactsTie.catch_resets FactsTie.n_pvDestroy Gen_C04Facts.treeset_copy_catch) = true /\
   FactsTie.ctor_all_ok (FactsTie.catch_resets FactsTie.n_pvDestroy Gen_C04Facts.treeset_ilist_catch) = true.
 Proof. exact FactsTie.treeset_ctors_at_generated. Qed.
-Print Assumptions treeset_copy_ctors_at_current_headers.
+Print Assumptions treeset_copy_ctors_at_current_headers_bounded.
 
-Theorem datatable_fill_at_current_headers :
+Theorem datatable_fill_at_current_headers_bounded :
   FactsTie.ctor_all_ok (FactsTie.catch_resets FactsTie.n_pvDestroyRaws Gen_C04Facts.datatable_fill_catch) = true.
 Proof. exact FactsTie.datatable_fill_at_generated. Qed.
-Print Assumptions datatable_fill_at_current_headers.
+Print Assumptions datatable_fill_at_current_headers_bounded.
 
 Theorem delegating_ctor_without_reset_refuted : FactsTie.ctor_all_ok false = false.
 Proof. exact FactsTie.ctor_all_ok_prefix_refuted. Qed.
 Print Assumptions delegating_ctor_without_reset_refuted.
 
 (* 84c9298: one row of HashMultiMap's copy constructor -- temporary ValueArray, Insert in a try block, handler = valueArray.Clear(); throw *)
-Theorem multimap_copy_row_at_current_headers :
+Theorem multimap_copy_row_at_current_headers_bounded :
   Gen_C04Facts.multimap_copy_row = FactsTie.multimap_row_expected /\
   Gen_C04Facts.multimap_copy_try = FactsTie.multimap_try_expected /\
   FactsTie.row_all_ok (FactsTie.catch_clears FactsTie.n_valueArray Gen_C04Facts.multimap_copy_catch) = true.
 Proof. exact FactsTie.multimap_row_at_generated. Qed.
-Print Assumptions multimap_copy_row_at_current_headers.
+Print Assumptions multimap_copy_row_at_current_headers_bounded.
 
 Theorem multimap_copy_row_without_clear_refuted : FactsTie.row_all_ok false = false.
 Proof. exact FactsTie.row_all_ok_not_clearing_refuted. Qed.
@@ -783,3 +766,47 @@ Theorem hash_extra_check_is_the_comparison :
     Gen_XCheckH.pvExtraCheck false pos_eqb deref find_ key_ pos = pos_eqb pos (find_ (key_ (deref pos))).
 Proof. exact XCheck.hash_xcheck_not_vacuous. Qed.
 Print Assumptions hash_extra_check_is_the_comparison.
+
+(* ---- review round: instances and witnesses for assumed hypotheses ------------------------------------------------------------------
+   intcap_creator_ok (hypothesis of array_reset_intcap_strong) holds for the creator Array::Shrink really passes (relocate `count` items from the
+   external block into the internal buffer), every category, every schedule; hence the internal-capacity reset is strong without an abstract
+   creator hypothesis *)
+Theorem intcap_creator_ok_relocate_instance :
+  forall c count ib h0,
+    regs h0 rItems <> ib ->
+    (forall j, j < count -> valid h0 (regs h0 rItems, j) = true /\ valid h0 (ib, j) = true /\
+                            (exists v, mem h0 (regs h0 rItems, j) = Live v) /\ mem h0 (ib, j) = Raw) ->
+    (forall i, count <= i -> mem h0 (regs h0 rItems, i) = Raw) ->
+    intcap_creator_ok (creator_relocate c count) ib h0.
+Proof. exact NonVacuity.intcap_creator_relocate_ok. Qed.
+Print Assumptions intcap_creator_ok_relocate_instance.
+
+Theorem array_reset_intcap_relocate_strong :
+  forall c count ib junk s,
+    regs (hp s) rItems <> ib -> alive (hp s) (regs (hp s) rItems) = true ->
+    (forall j, j < count -> valid (hp s) (regs (hp s) rItems, j) = true /\ valid (hp s) (ib, j) = true /\
+                            (exists v, mem (hp s) (regs (hp s) rItems, j) = Live v) /\ mem (hp s) (ib, j) = Raw) ->
+    (forall i, count <= i -> mem (hp s) (regs (hp s) rItems, i) = Raw) ->
+    wp (pv_reset_intcap ib count junk (creator_relocate c count)) s
+       (fun _ s' => regs (hp s') rItems = ib /\ regs (hp s') rCount = count /\ alive (hp s') (regs (hp s) rItems) = false)
+       (fun s' => unchanged (hp s) (hp s')).
+Proof. exact NonVacuity.pv_reset_intcap_relocate_strong. Qed.
+Print Assumptions array_reset_intcap_relocate_strong.
+
+(* the preconditions of the shifter / tree-plan / pair-replace theorems are satisfiable (one concrete heap) *)
+Theorem arr_basic_satisfiable : Shifter.arr_basic (2, 0) NonVacuity.wit_heap.
+Proof. exact NonVacuity.arr_basic_witness. Qed.
+Print Assumptions arr_basic_satisfiable.
+Theorem leaf_pre_satisfiable : PlanWf.leaf_pre 0 2 (2, 0) 7 NonVacuity.wit_heap.
+Proof. exact NonVacuity.leaf_pre_witness. Qed.
+Print Assumptions leaf_pre_satisfiable.
+Theorem kvr_pre_satisfiable : Replace.kvr_pre (0, 0) (0, 1) (2, 0) (2, 1) 10 11 NonVacuity.wit_heap.
+Proof. exact NonVacuity.kvr_pre_witness. Qed.
+Print Assumptions kvr_pre_satisfiable.
+Theorem kvrr_pre_satisfiable : Replace.kvrr_pre (0, 0) (0, 1) (2, 0) (2, 1) (1, 0) (1, 1) 10 11 7 8 NonVacuity.wit_heap.
+Proof. exact NonVacuity.kvrr_pre_witness. Qed.
+Print Assumptions kvrr_pre_satisfiable.
+(* step_ok (hypothesis of relocate_items_swallow): satisfiable by the empty step only; no instance for a real relocation step is proved *)
+Theorem step_ok_satisfiable_trivially : forall X (obs : heap -> X) (Inv : heap -> Prop), HashGrow.step_ok X obs Inv (ret tt).
+Proof. exact NonVacuity.step_ok_witness. Qed.
+Print Assumptions step_ok_satisfiable_trivially.
